@@ -36,6 +36,11 @@ impl VxFtIdx {
     pub fn insert(&mut self, k: FtKey, v: usize) -> (r: Option<usize>)
         ensures final(self).m() == old(self).m().insert(k, v),
     { unimplemented!() }
+    // `.entry(k).or_insert(v)` (a shape the text does not use today; kept so that a change to it is decided, not lost)
+    #[verifier::external_body]
+    pub fn vx_entry_or_insert(&mut self, k: FtKey, v: usize)
+        ensures final(self).m() == (if old(self).m().dom().contains(k) { old(self).m() } else { old(self).m().insert(k, v) }),
+    { unimplemented!() }
 }
 #[verifier::external_body]
 pub struct VxPluginState { _p: u8 }   // Arc<RwLock<PluginState>>
@@ -185,6 +190,77 @@ pub open spec fn flfi_post(o: FileTransferPlugin, f: FileTransferPlugin, e: DltC
 //@|        vx_i <= 1,
 //@|    invariant
 //@|        *vx_self == s0,
+//@|    decreases vx_args.rem().len(),
+//@ end
+
+// ---------- The FLST arm: the statements that decode an announcement and open a transfer ----------
+#[verifier::external_body]
+pub fn arg_as_string(arg: &DltArg) -> (r: Result<String, ()>) { unimplemented!() }
+#[verifier::external_body]
+pub fn vx_string_append(s: &mut String, t: &String) { unimplemented!() }
+impl VxGlob {
+    #[verifier::external_body]
+    pub fn matches(&self, s: &String) -> (r: bool) { unimplemented!() }
+}
+// Vec::with_capacity(n): empty; "If capacity is 0, the vector will not allocate" and capacity >= n (std documentation)
+#[verifier::external_body]
+pub fn vx_with_capacity(n: usize) -> (r: Vec<u8>)
+    ensures r@.len() == 0, spec_capacity(&r) >= n, n == 0 ==> spec_capacity(&r) == 0,
+{ Vec::with_capacity(n) }
+//@ extract src/plugins/file_transfer.rs const MAX_INITIAL_FILE_DATA_CAPACITY
+//@ end
+// an announcement opens a transfer iff its four numbers decode and it announces at least one package of non-zero size
+pub open spec fn announce_ok(a: Seq<DltArg>) -> bool {
+    a.len() > 6 && spec_uint(a[1]) is Ok && spec_uint(a[3]) is Ok && spec_uint(a[5]) is Ok && spec_uint(a[6]) is Ok
+        && spec_uint(a[5])->Ok_0 > 0 && spec_uint(a[6])->Ok_0 > 0
+}
+pub open spec fn flst_post(o: FileTransferPlugin, f: FileTransferPlugin, e: DltChar4, lc: u32, a: Seq<DltArg>) -> bool {
+    let n = o.transfers@.len() as int;
+    &&& f.inv() // O:ftp.flst.inv
+    // an announcement changes no existing transfer
+    &&& f.transfers@.len() >= n && forall|i: int| 0 <= i < n ==> settled(o.transfers@[i], #[trigger] f.transfers@[i]) // O:ftp.flst.frame
+    // a good announcement opens exactly one transfer - fresh, in state Started, expecting package 1, with the announced numbers - and
+    // from now on the key (ECU, lifecycle, serial) leads to it (also when the key was in use: a re-announcement starts over)
+    &&& (announce_ok(a) ==> ({
+            let t = f.transfers@[n];
+            let key = (e, lc, spec_uint(a[1])->Ok_0);
+            f.transfers@.len() == n + 1 && key_of(t) == key && f.transfers_idx.m() == o.transfers_idx.m().insert(key, n as usize)
+            && t@.state is Started && t@.next == 1 && t@.recvd == 0 && t@.payload_len == 0 && t@.data.len() == 0
+            && t@.fsize == spec_uint(a[3])->Ok_0 && t@.nr == spec_uint(a[5])->Ok_0 && t@.bsize == spec_uint(a[6])->Ok_0
+        })) // O:ftp.flst.opens
+    // anything else opens nothing
+    &&& (!announce_ok(a) ==> f.transfers@.len() == n && f.transfers_idx.m() == o.transfers_idx.m()) // O:ftp.flst.else_nothing
+}
+//@ extract src/plugins/file_transfer.rs region `>if FileTransferPlugin::is_type(msg, "FLST") {` .. `$end` in <Plugin for FileTransferPlugin>::process_msg
+//@   sig #[verifier::loop_isolation(false)] #[verifier::allow_complex_invariants] pub fn flst_msg<'a, A: VArgIter<'a>>(vx_self: &mut FileTransferPlugin, msg: &VxMsgKey, mut vx_args: A)
+//@   cut R12 `let args = msg.into_iter();`
+//@   sub R13 `for (i, arg) in args.enumerate() {` => `let mut vx_i: usize = 0; loop { let arg = match vx_args.next() { Some(vx_a) => vx_a, None => break }; let i = vx_i; vx_i += 1;`
+//@   sub R12 `self` => `vx_self` *
+//@   sub R11 `file_name += &name;` => `vx_string_append(&mut file_name, &name);`
+//@   sub R11 `file_creation_date += &name;` => `vx_string_append(&mut file_creation_date, &name);`
+//@   sub R12 `.entry(__).or_insert(__)` => `.vx_entry_or_insert($1, $2)` ?
+//@   sub R11 `Vec::with_capacity(` => `vx_with_capacity(`
+//@   sub R3 `std::cmp::min(` => `vx_min_u64(` ?
+//@   spec
+//@|    requires old(vx_self).inv(), old(vx_self).transfers@.len() < usize::MAX,
+//@|    ensures flst_post(*old(vx_self), *final(vx_self), msg.ecu, msg.lifecycle, vx_args.rem()), // O:ftp.flst
+//@   hint start
+//@|    let ghost a0 = vx_args.rem();
+//@|    let ghost s0 = *vx_self;
+//@|    proof { assert forall|i: int| 0 <= i < s0.transfers@.len() implies settled(s0.transfers@[i], #[trigger] s0.transfers@[i]) by { lemma_settled_refl(s0.transfers@[i]); } }
+//@   loop inner `vx_args.next()`
+//@|    invariant_except_break
+//@|        vx_i <= 6, vx_i <= a0.len(), vx_args.rem() == a0.skip(vx_i as int),
+//@|        vx_i >= 2 ==> spec_uint(a0[1]) == Ok::<u64, ()>(serial),
+//@|        vx_i >= 4 ==> spec_uint(a0[3]) == Ok::<u64, ()>(file_size),
+//@|        vx_i >= 6 ==> spec_uint(a0[5]) == Ok::<u64, ()>(nr_packages),
+//@|        vx_i < 2 ==> serial == 0, vx_i < 4 ==> file_size == 0, vx_i < 6 ==> nr_packages == 0, buffer_size == 0,
+//@|    invariant
+//@|        *vx_self == s0,
+//@|    ensures
+//@|        (nr_packages > 0 && buffer_size > 0) ==> a0.len() > 6 && spec_uint(a0[1]) == Ok::<u64, ()>(serial) && spec_uint(a0[3]) == Ok::<u64, ()>(file_size)
+//@|            && spec_uint(a0[5]) == Ok::<u64, ()>(nr_packages) && spec_uint(a0[6]) == Ok::<u64, ()>(buffer_size),
+//@|        !(nr_packages > 0 && buffer_size > 0) ==> !announce_ok(a0),
 //@|    decreases vx_args.rem().len(),
 //@ end
 // ---- end of units/ftplugin/part.rs ----
